@@ -2,7 +2,7 @@
    GroupBy.var = (group sum of squares - (group sum)^2 / count) / (count - ddof), three group
    reductions whose exactness is C01/C04.  Exact arithmetic over Qc. *)
 From Coq Require Import List ZArith QArith Qcanon.
-From GL Require Import Proofs.VarProofs.
+From GL Require Import Proofs.VarProofs Lib.Arr Model.Factorize Spec.RowSpec Proofs.IndexerProofs.
 Import ListNotations.
 Open Scope Qc_scope.
 
@@ -27,3 +27,21 @@ Example C16_example :
   let l := map (fun z => Q2Qc (inject_Z z)) [2; 4; 4; 4; 5; 5; 7; 9]%Z in
   this ((qsumsq l - qsum l * qsum l / qlen l) / (qlen l - 1)) = (32 # 7)%Q.
 Proof. vm_compute. reflexivity. Qed.
+
+(* 4. apply / median / quantile: the user function is called on arr[indexer] split at the cumulative group counts.
+      The piece handed to it for label g holds exactly the values of g's rows, in row order (the counting-sort
+      theorem of C02), with or without the sorted-order key map. *)
+Open Scope Z_scope.
+Theorem C16_apply_sees_group_rows_in_row_order {A} (d : A) (vals : list A) gk counts key_map ng chunks g :
+  (forall g, (g < ng)%nat -> 0 <= out key_map (Z.of_nat g) /\ (outn key_map g < ng)%nat) ->
+  (forall g g', (g < ng)%nat -> (g' < ng)%nat -> outn key_map g = outn key_map g' -> g = g') ->
+  length counts = ng ->
+  (forall g, (g < ng)%nat -> get 0 counts (outn key_map g) = Z.of_nat (length (positions_of g gk None))) ->
+  (forall c, In c counts -> 0 <= c) -> (forall k, In k gk -> k < Z.of_nat ng) ->
+  gk = concat chunks -> (g < ng)%nat ->
+  map (fun i => get d vals (Z.to_nat i))
+      (firstn (length (positions_of g gk None))
+         (skipn (Z.to_nat (psum counts (outn key_map g))) (build_group_sorted_indexer chunks counts key_map None)))
+  = map (get d vals) (positions_of g gk None).
+Proof. exact (group_values_in_row_order d vals gk counts key_map ng chunks g). Qed.
+Print Assumptions C16_apply_sees_group_rows_in_row_order.
